@@ -443,7 +443,7 @@ func TestC07RestartPoints(t *testing.T) {
 	if ev.Thorough() {
 		tail = 3
 	}
-	ev.Rule(sub, fmt.Sprintf("exhaustive: first sender in {A, B, AB} x k = 0..5 in-order deliveries x restart of B (fresh channel, same key, with something to send) with the old instance's undelivered packets vanishing or staying in flight x every sequence of up to %d further decisions {deliver held message 0..2} (old RespHello / RespDone / data reaching the survivor after the restart, the new instance's hello before or after them); then the wire is reliable; synchronous delivery, backoff 40 ms. Oracle as converge_after_faults (instances of the recorded finding restart-while-initiator-awaits-RespDone are counted, not judged). non-trivial = an old instance's packet delivered after the restart; every path distinct", tail))
+	ev.Rule(sub, fmt.Sprintf("exhaustive: first sender in {A, B, AB} x k = 0..5 in-order deliveries x restart of B (fresh channel, same key, with something to send) with the old instance's undelivered packets vanishing or staying in flight x every sequence of up to %d further decisions {deliver held message 0..2} (old RespHello / RespDone / data reaching the survivor after the restart, the new instance's hello before or after them); then the wire is reliable; in addition, without a restart, first sender in {A, B, AB} x k = 0..5 in-order deliveries x {the next message in flight is lost, duplicated} (the loss of each handshake message in turn, with one-way traffic); synchronous delivery, backoff 40 ms. Oracle as converge_after_faults (instances of the recorded finding restart-while-initiator-awaits-RespDone are counted, not judged). non-trivial = an old instance's packet delivered after the restart, or a single loss/duplicate; every path distinct", tail))
 	if replayC07(t) {
 		return
 	}
@@ -468,6 +468,24 @@ func TestC07RestartPoints(t *testing.T) {
 					c.Prefix = append(c.Prefix, decision{Act: "deliver", Idx: 0})
 				}
 				rec(c, tail)
+			}
+		}
+	}
+	// single faults at every point of an otherwise in-order handshake, no restart: the k-th message in flight is lost
+	// or duplicated (one-way traffic: only the first sender has anything to say)
+	var lossJobs int64
+	for _, first := range []string{"A", "B", "AB"} {
+		for k := 0; k <= 5; k++ {
+			for _, act := range []string{"drop", "dup"} {
+				for idx := 0; idx < 2; idx++ {
+					c := c07case{First: first, Backoff: 40, Restart: -1, Direct: true}
+					for i := 0; i < k; i++ {
+						c.Prefix = append(c.Prefix, decision{Act: "deliver", Idx: 0})
+					}
+					c.Prefix = append(c.Prefix, decision{Act: act, Idx: idx})
+					jobs = append(jobs, c)
+					lossJobs++
+				}
 			}
 		}
 	}
@@ -501,7 +519,7 @@ func TestC07RestartPoints(t *testing.T) {
 					oldAfter = true
 				}
 			}
-			if oldAfter {
+			if oldAfter || (c.Restart < 0 && r.faults > 0) {
 				atomic.AddInt64(&nontriv, 1)
 				if ev.WantSample(sub) {
 					ev.Sample(sub, c.String()+" :: "+strings.Join(r.trace, "; "))
